@@ -5,14 +5,26 @@ from formats import manifest_common as mc
 
 KIND = "rpms"
 SEGS = ["foo", "bar", "lib", "2", "3d", "python3", "x", "gtk2", "0", "devel", "Perl", "a_b", "c++"]
-VERSIONS = ["1.0", "2", "1.2.3", "0.9_rc1", "1~beta2", "20150101", "3.1.0", "12.2.5"]
-RELEASES = ["1", "1.el7", "3.fc23", "0.1.rc9.el7cp", "25.el7cp", "2.module+el8"]
+# audit A1/A2/A4/A5: blanks, the format's delimiters (also doubled), case variants, non-ASCII, astral, long, type look-alikes
+SEGS_EXOTIC = ["perl", "PERL", "foo bar", " lead", "ta\tb", "nb\u00a0sp", "dot.ted", "co:lon", "at@", "pct%s", 'quo"te', "apos'", "back\\slash",
+               "brack[et]", "", "\u00fcn\u00ef", "\u540d\u524d", "\U0001f600", "<LONG>", "None", "null", "False", "1.0", "a,b;c=d#e"]
+# very long N-E:V-R.A components cost the backtracking regex MODEL seconds per call (degree-4 pattern): 300 characters in the
+# thorough / search tiers, 48 in the quick tier (300-character values of the other parameters are generated in every tier)
+LONG_N = {"n": 48}
+VERSIONS = ["1.0", "2", "1.2.3", "0.9_rc1", "1~beta2", "20150101", "3.1.0", "12.2.5",
+            "1:2", "1 0", "1%", "\u0663.\uff17", "1.0@x", "<LONG>", "None", "0", "1..2", "1,2;3=4"]
+RELEASES = ["1", "1.el7", "3.fc23", "0.1.rc9.el7cp", "25.el7cp", "2.module+el8", "1.el7 x", "1,2", "1;2", "0", "1..el7", "r:1"]
 EPOCHS = [("0", 0), ("0", 0), ("1", 1), ("2", 2), ("10", 10), ("007", 7), ("00", 0), ("4294967296", 4294967296),
-          ("١٢", 12)]
-PREFIXES = ["", "", "Packages/f/", "/abs/dir/", "a/b-c/", "x-1:2-3.y/"]
+          ("١٢", 12), ("\uff17", 7), ("9223372036854775807", 2 ** 63 - 1), ("2147483648", 2 ** 31), ("10000000", 10 ** 7)]
+PREFIXES = ["", "", "Packages/f/", "/abs/dir/", "a/b-c/", "x-1:2-3.y/",
+            "./", "a/../b/", "dir//", "a b/", "\u00fcn\u00ef/", "Packages/f/Packages/f/", "//"]
 SUFFIXES = ["", ".rpm"]
-SIGKEYS = [None, "fd431d51", "FD431D51", "AbCd1234", "", "34EC9CBA", "f5282ee4"]
-PATHS = ["Server/x86_64/os/Packages/f/%s.rpm", "Packages/%s.rpm", "%s", "a/b/c/%s.rpm", "tree/../%s.rpm"]
+SIGKEYS = [None, "fd431d51", "FD431D51", "AbCd1234", "", "34EC9CBA", "f5282ee4", "0", "None", "Fd431D51", "AB" * 150, " FD 43 ", "fd:43-1d.51"]
+PATHS = ["Server/x86_64/os/Packages/f/%s.rpm", "Packages/%s.rpm", "%s", "a/b/c/%s.rpm", "tree/../%s.rpm",
+         # audit A1/A3/A5
+         "./%s.rpm", "a//%s.rpm", "a/../%s", "%s/", "my docs/%s.rpm", "\u00fcn\u00ef/\U0001f600/%s", "x" * 300 + "/%s", "a\tb/%s", '"q"/%s',
+         "back\\slash/%s", "a/a/a/%s", "%s//"]
+PATHS_FIXED = ["None", " ", "0", ".", "..", "null"]
 UNPARSABLE = ["foo:bar", ":", "foo-1:bar", "a:b-c", "1:foo-1.0-1", "foo-1:1.0", "foo:", "-:-", "foo-0:1.0-1\n.x86_64"]
 CATEGORIES = ["binary", "debug", "source"]
 
@@ -39,9 +51,13 @@ def text(rng, name, epoch_text, version, release, arch, with_epoch=True):
 
 
 def gen_source(rng):
-    name = "-".join(rng.choice(SEGS) for _ in range(rng.choice([1, 1, 2, 2, 3, 4])))
+    pool = SEGS if rng.random() < 0.8 else SEGS + SEGS_EXOTIC
+    name = "-".join(rng.choice(pool) for _ in range(rng.choice([1, 1, 2, 2, 3, 4])))
+    if name == "":
+        name = "-"
+    name = name.replace("<LONG>", "x" * LONG_N["n"])
     et, ev = rng.choice(EPOCHS)
-    return {"name": name, "et": et, "ev": ev, "version": rng.choice(VERSIONS), "release": rng.choice(RELEASES),
+    return {"name": name, "et": et, "ev": ev, "version": rng.choice(VERSIONS).replace("<LONG>", "v" * LONG_N["n"]), "release": rng.choice(RELEASES),
             "srcarch": rng.choice(["src", "src", "src", "nosrc"])}
 
 
@@ -60,11 +76,15 @@ def valid_op(rng, src, variant, arch, i):
     key = canonical(name, src["ev"], src["version"], src["release"], parch)
     sigkey = rng.choice(SIGKEYS)
     path = rng.choice(PATHS) % ("%s-%s-%s.%s" % (name, src["version"], src["release"], parch))
+    if rng.random() < 0.03:
+        path = rng.choice(PATHS_FIXED)
+    if path.startswith("/"):                                      # an exotic name may begin with a slash-free blank only; keep the call valid
+        path = "p" + path
     return {"variant": variant, "arch": arch, "nevra": nevra, "path": path, "sigkey": sigkey, "category": category, "srpm": srpm,
             "expect": {"srpm_key": srpm_key if category != "source" else key, "key": key}, "why": "valid"}
 
 
-INVALID_KINDS = ["missing_epoch", "missing_epoch_colon_elsewhere", "unparsable", "abs_path", "empty_path", "bad_arch", "src_arch", "bad_category",
+INVALID_KINDS = ["suffix_near_miss", "source_arch_near_miss", "missing_epoch", "missing_epoch_colon_elsewhere", "unparsable", "abs_path", "empty_path", "bad_arch", "src_arch", "bad_category",
                  "category_disagrees", "srpm_missing_epoch", "srpm_unparsable", "source_with_srpm", "binary_without_srpm", "empty_srpm"]
 
 
@@ -99,6 +119,16 @@ def invalid_op(rng, base, kind):
         op["arch"] = rng.choice(["src", "nosrc"])
     elif kind == "bad_category":
         op["category"] = rng.choice(mc.BAD_CATEGORIES)
+    elif kind == "suffix_near_miss":
+        # audit C2: near misses of the literal ".rpm" (not stripped: the arch then carries it) - no expectation, correspondence only
+        base_n = op["nevra"][:-4] if op["nevra"].endswith(".rpm") else op["nevra"]
+        op["nevra"] = base_n + rng.choice([".rpmx", ".RPM", ".rp", "rpm", ".rpm.rpm", ".rpm "])
+        op["expect"] = None
+    elif kind == "source_arch_near_miss":
+        # audit C2/A7: extensions / prefixes of the literals "src", "nosrc" as the RPM's own arch under category source
+        op["category"] = "source"
+        op["srpm"] = None
+        op["nevra"] = "foo-1:1.0-1.%s" % rng.choice(["srcx", "sr", "nosrcs", "nosr", "SRC", "src "])
     elif kind == "category_disagrees":
         if op["category"] == "source":
             op["category"] = rng.choice(["binary", "debug"])
@@ -146,16 +176,15 @@ def mutated_op(rng, base):
 KF_BUDGET = {"missing_epoch_colon_elsewhere": 18}
 
 
-def reset_budget():
+def reset_budget(tier="quick"):
     KF_BUDGET.update({"missing_epoch_colon_elsewhere": 18})
+    LONG_N["n"] = 48 if tier == "quick" else 300
 
 
 def gen_ops(rng, tier, n=None, valid_only=False):
     n = n or rng.choice([3, 5, 8, 12] + ([25, 40] if tier != "quick" else [16]))
-    arches = mc.arches()
-    start = rng.randrange(len(arches))
-    my_arches = [arches[(start + 7 * i) % len(arches)] for i in range(rng.choice([1, 2, 3]))]
-    variants = rng.sample(mc.VARIANTS, rng.choice([1, 2, 3]))
+    my_arches = mc.next_arches(rng.choice([1, 2, 3]))
+    variants = mc.pick_variants(rng, rng.choice([1, 2, 3]))
     sources = [gen_source(rng) for _ in range(rng.choice([1, 2, 3]))]
     ops, valid = [], []
     for i in range(n):
@@ -191,6 +220,10 @@ def gen_ops(rng, tier, n=None, valid_only=False):
         if op.get("why") in ("valid", "repeat", "elsewhere", "overwrite"):
             valid.append(op)
         ops.append(op)
+        if op.get("expect") == "refuse" and not valid_only and rng.random() < 0.4 and valid:
+            rep = dict(rng.choice(valid))                                  # audit B2: failed call -> repaired call -> success
+            rep["why"] = "repeat"
+            ops.append(rep)
     return ops
 
 
